@@ -8,7 +8,7 @@ rows = []
 for d in sorted(glob.glob('seeded/*/')):
     sid = os.path.basename(d.rstrip('/'))
     meta = json.load(open(d + 'meta.json')); prop = meta['property']
-    if only and prop not in only and sid not in only:
+    if meta.get('obsolete') or (only == {'--new'} and meta.get('last_result')) or (only and only != {'--new'} and prop not in only and sid not in only):
         if os.path.exists(d + 'meta.json') and meta.get('last_result'):
             rows.append((sid, prop, meta['last_result'], meta.get('caught_by', '')))
         continue
@@ -31,16 +31,18 @@ for d in sorted(glob.glob('seeded/*/')):
                     break
                 if r.returncode == 2:
                     res = 'ENGINE-ERROR'; caught = r.stderr[-300:]
+            if meta.get('kind', '').startswith('benign'):
+                res = {'MISSED': 'NO-ALARM (as required)', 'DETECTED': 'FALSE-ALARM'}.get(res, res)
             meta['seconds'] = round(time.time() - t, 1)
         finally:
             subprocess.check_call(['git', '-C', '/repo', 'checkout', '--', '.'])
     meta['last_result'] = res; meta['caught_by'] = caught
-    meta['detected_by'] = [caught.split(':')[0]] if res == 'DETECTED' else []
+    meta['detected_by'] = [caught.split(':')[0]] if res in ('DETECTED', 'FALSE-ALARM') else []
     meta['what_was_run'] = f"git -C /repo apply seeded/{sid}/patch.diff; ./check {prop} --tier quick; git -C /repo checkout -- .   (repo HEAD {subprocess.run(['git','-C','/repo','rev-parse','--short','HEAD'],capture_output=True,text=True).stdout.strip()})"
     json.dump(meta, open(d + 'meta.json', 'w'), indent=1)
     rows.append((sid, prop, res, caught)); print(sid, res, caught[:120], flush=True)
 with open('seeded/RESULTS.md', 'w') as f:
-    f.write('# Seeded property-breaking changes and which check catches them\n\nEach change was produced by an independent sub-agent that saw only the property text, was confirmed in a scratch worktree\n(the full 185-test suite still passes with it, its demonstration fails with it and passes without), and is re-run here with tools/seedall.py.\n\n| seed | property | quick check verdict | first witness |\n|---|---|---|---|\n')
+    f.write('# Seeded property-breaking changes and which check catches them\n\nEach change was produced by an independent sub-agent that saw only the property text, was confirmed in a scratch worktree\n(the full 185-test suite still passes with it, its demonstration fails with it and passes without), and is re-run here with tools/seedall.py.\nSeeds labelled r1/r2 are *benign refactors* (semantics-preserving maintenance changes that keep the property true): the required verdict for them is NO-ALARM.\n\n| seed | property | quick check verdict | first witness |\n|---|---|---|---|\n')
     for sid, prop, res, caught in rows:
         f.write(f"| {sid} | {prop} | {res} | {caught.replace('|', '/')[:200]} |\n")
-print(sum(1 for r in rows if r[2] == 'DETECTED'), 'of', len(rows), 'detected')
+print(sum(1 for r in rows if r[2] == 'DETECTED'), 'breaking changes detected,', sum(1 for r in rows if r[2].startswith('NO-ALARM')), 'benign refactors without alarm, of', len(rows))
